@@ -365,11 +365,17 @@ func init() {
 						before := append([]shCookie(nil), jar.cs...)
 						rw := httptest.NewRecorder()
 						op := "save"
-						if r.intn(5) == 0 {
+						switch r.intn(10) {
+						case 0, 1:
 							op = "clear"
+						case 2:
+							// a save and a clear writing into ONE response (a refresh whose result then fails validation;
+							// a sign-out request that itself refreshed the session)
+							op = "saveclear"
 						}
+						signedMid := ""
 						var saved *sessionsapi.SessionState
-						if op == "save" {
+						if op == "save" || op == "saveclear" {
 							var ss *sessionsapi.SessionState
 							switch pick := r.intn(10); {
 							case pick == 0:
@@ -411,6 +417,17 @@ func init() {
 							}
 							if saved.CreatedAt == nil { // Save stamps it
 								saved.CreatedAt = ss.CreatedAt
+							}
+							if op == "saveclear" {
+								for _, line := range rw.Header().Values("Set-Cookie") {
+									if pc := parseSetCookie(line); pc != nil && pc.MaxAge >= 0 {
+										signedMid += pc.Value
+									}
+								}
+								if err := store.Clear(rw, req); err != nil {
+									c.violation("C11", "Clear failed: "+err.Error(), map[string]interface{}{"store": storeKind})
+									break
+								}
 							}
 						} else {
 							if err := store.Clear(rw, req); err != nil {
@@ -469,7 +486,11 @@ func init() {
 								ld = cjNV(lc.Name, lc.Value)
 							}
 							implOut := fmt.Sprintf("sc=[%s] jar=[%s] load=%s", cjList(scs), jar.show(), ld)
-							c.emit(implOut, "cj.step", hx(name), is(A), op, "r"+signed, jn, jv)
+							if op == "saveclear" {
+								c.emit(implOut, "cj.step", hx(name), is(A), op, "r"+signedMid, jn, jv)
+							} else {
+								c.emit(implOut, "cj.step", hx(name), is(A), op, "r"+signed, jn, jv)
+							}
 						} else {
 							c.casen(fmt.Sprintf("redis-%d-%d", hid, k), "")
 						}
@@ -541,7 +562,9 @@ func init() {
 							lastTicket = ""
 							if lerr == nil {
 								c.violation("C11", "a session still loads after Clear was applied to the browser",
-									map[string]interface{}{"store": storeKind, "cookie_name_len": len(name), "jar_after": jar.show()})
+									map[string]interface{}{"store": storeKind, "cookie_name_len": len(name), "jar_after": jar.show(), "op": op})
+								c.violation("C10", "after a clear, a session still loads in the browser (op "+op+")",
+									map[string]interface{}{"store": storeKind, "cookie_name_len": len(name), "op": op, "cookies_presented": len(before), "set_cookie_lines": len(lines)})
 							} else {
 								c.count("c11:nothing-loads-after-clear")
 							}
@@ -576,7 +599,7 @@ func init() {
 				}
 			}
 		}
-		c.close([]string{"step:cookie:save", "step:cookie:clear", "step:redis:save", "step:redis:clear", "save:cookie:one-cookie", "save:two-parts",
+		c.close([]string{"step:cookie:saveclear", "step:redis:saveclear", "step:cookie:save", "step:cookie:clear", "step:redis:save", "step:redis:clear", "save:cookie:one-cookie", "save:two-parts",
 			"save:three-parts", "save:4+parts", "save:deleted-stale", "size:near-threshold", "size:tiny", "size:multi-kb", "size:huge",
 			"c10:loads-last-saved", "c11:nothing-loads-after-clear", "c11:deletion-matches", "redis:ticket-reused", "jar:foreign-cookies",
 			"c18:set-cookie"})
